@@ -43,9 +43,11 @@ EXTRA = {
                    "well-formed table has the layout of the plain row-wise text, up to the flag), closure of the variants "
                    "under padTrailing / padHeaderR / padHeaderT / addComments, toTransposed_layoutR, "
                    "rowwise_variant_same_table / transposed_variant_same_table (makeTable and makePrecursor, every ext and "
-                   "fixer), rewrites_rowwise / rewrites_transposed (composites), termination_independent. PARTIAL: that "
-                   "header blanks keep the grid one block for the splitter (a padded name / unit that is not a marker "
-                   "stays not a marker) is not proved in Lean; it is checked per case (block_shaped, delivered).",
+                   "fixer), rewrites_rowwise / rewrites_transposed (composites), termination_independent, classify_pad "
+                   "(blanks around a non-marker cell never make it a marker) and blockShaped_* (each rewrite keeps the grid "
+                   "one block), stream_rowwise / stream_transposed (everything together for a row stream). A decided "
+                   "witness shows the orientation rewrite fails without wfT. Hypotheses: wf / wfT of the table value and "
+                   "blockShaped of its two plain layouts (all decidable, all checked per generated case).",
 }
 
 BLANKS = ["", "", " ", "  ", "\t", " \t", " ", "  "]
@@ -435,7 +437,7 @@ def run(tier, seed, model_ok, translator, search=False, _limit=None):
                 "ill-formed tables for the predicate comparison only. Non-trivial: at least one rewrite applied; "
                 "distinct by (mode, table, rewrites).")
     rng = make_rng(seed, "C10")
-    n = 12000 if tier == "thorough" else 1500
+    n = 20000 if tier == "thorough" else 3000
     if search:
         n = 4000
     if _limit is not None:
